@@ -1,6 +1,7 @@
 package core
 
 import (
+	"go/token"
 	"fmt"
 	"strings"
 
@@ -173,7 +174,30 @@ func ErrNilEdges(call *ssa.Call) (edges map[[2]int]bool, tail bool, handled bool
 		return edges, false, false
 	}
 	any := false
+	all := append([]ssa.Instruction(nil), *refs...)
+	// `err` captured by a closure lives in a cell: `*err = call(); t = *err; if t != nil`. The loads
+	// that follow the store in the same block (before the cell is written again) carry the result.
 	for _, r := range *refs {
+		st, ok := r.(*ssa.Store)
+		if !ok || st.Val != ev {
+			continue
+		}
+		if _, isAlloc := st.Addr.(*ssa.Alloc); !isAlloc {
+			continue
+		}
+		b := st.Block()
+		for i := IndexOf(st) + 1; i < len(b.Instrs); i++ {
+			if st2, ok := b.Instrs[i].(*ssa.Store); ok && st2.Addr == st.Addr {
+				break
+			}
+			if u, ok := b.Instrs[i].(*ssa.UnOp); ok && u.Op == token.MUL && u.X == st.Addr {
+				if ur := u.Referrers(); ur != nil {
+					all = append(all, *ur...)
+				}
+			}
+		}
+	}
+	for _, r := range all {
 		switch x := r.(type) {
 		case *ssa.BinOp:
 			_, eq, ok := NilTest(x)
